@@ -35,12 +35,15 @@
 (*   pairs   C08: the same frame run once after only the accepted data     *)
 (*         segments of its own flow and once inside the full interleaved   *)
 (*         history; how it was answered the first time                     *)
+(*   segs    C11: per byte stream sent under several segmentations (the    *)
+(*         harness numbers them, aux.seg): how far some member got without *)
+(*         an answer, and where / with what the first answer came          *)
 (***************************************************************************)
 EXTENDS Wire, Config, App, TLC
 
-VARIABLES cfg, tcb, ck, ckx, viol, kf, last, groups, pairs, byck, coll, fmt
+VARIABLES cfg, tcb, ck, ckx, viol, kf, last, groups, pairs, byck, coll, fmt, segs
 
-svars == << cfg, tcb, ck, ckx, viol, kf, last, groups, pairs, byck, coll, fmt >>
+svars == << cfg, tcb, ck, ckx, viol, kf, last, groups, pairs, byck, coll, fmt, segs >>
 
 (* Known deviations of the implementation (KNOWN_FINDINGS.txt), as keys *)
 CONSTANT KnownKeys
@@ -741,9 +744,72 @@ AfterPairs(b, obs) ==
              IF k = obs.aux.pair THEN [ req |-> b, canon |-> ReplyCanon(b, obs) ] ELSE pairs[k] ]
 
 (***************************************************************************)
-(* State after the step                                                    *)
+(* C11: whether the first request on a flow is answered, the stream byte   *)
+(* that triggers the reply and the reply's content depend on the byte      *)
+(* stream only.  Flows carrying the same non-zero aux.seg carry the same   *)
+(* byte stream cut differently.  A member that is answered by the segment  *)
+(* covering stream bytes n0+1..n1 says: the trigger byte lies in (n0, n1]; *)
+(* a member that has consumed n1 bytes with bare ACKs only says: it lies   *)
+(* beyond n1.  All members must be consistent, and the answers equal.      *)
+(* This holds for every stream, also those whose answer the statements     *)
+(* leave open (class any).                                                 *)
 (***************************************************************************)
 StreamCap == 4096
+
+SegEligible(b, obs) ==
+    LET o == ExpectL2(b) IN
+    /\ obs.aux.seg # 0 /\ o.kind = "data" /\ o.name \in { "TcpDataFirstValid", "TcpDataKnownFlow" }
+    /\ obs.kind = "reply" /\ ReplyShape(b, obs.rep, 20)
+    /\ ~DoneBefore(TcpCtx(b).flow)
+    /\ Len(StreamBefore(TcpCtx(b).flow)) + Len(TcpPayload(b)) <= StreamCap
+
+SegObs(b, obs) ==
+    LET old == StreamBefore(TcpCtx(b).flow)
+        s == old \o TcpPayload(b)
+        carried == Len(obs.rep) > TcpDataStartR(obs.rep)
+        c == AppCtxTcp(b)
+        rpl == AppReplyOf(obs.rep)
+    IN [ s |-> s, n0 |-> Len(old), n1 |-> Len(s), ans |-> carried,
+         (* fields that carry an endpoint address are compared only between members contacted *)
+         (* from and at the same endpoint (the source port differs by construction)           *)
+         ctx |-> << c.ver, c.src, c.dst, c.dport >>,
+         canon |-> IF carried THEN AppCanon("tcp", rpl) ELSE << >>,
+         exact |-> IF ~carried THEN << >>
+                   ELSE IF ResponderOf("tcp", rpl) = "STUN" THEN AppCanon("tcp", rpl) ELSE ClockCanon("tcp", rpl) ]
+
+SegNone == [ str |-> << >>, sil |-> 0, ans |-> FALSE, lo |-> 0, hi |-> 0, canon |-> << >>, exact |-> << >>, ctx |-> << >> ]
+SegCompatible(g, m) == IsPrefix(m.s, g.str) \/ IsPrefix(g.str, m.s)
+
+SegJudge(b, obs) ==
+    IF ~SegEligible(b, obs) \/ obs.aux.seg \notin DOMAIN segs THEN {}
+    ELSE LET g == segs[obs.aux.seg]
+             m == SegObs(b, obs)
+         IN IF ~SegCompatible(g, m) THEN {}
+            ELSE IF m.ans
+            THEN V("C11", "reply-triggered-by-the-same-stream-byte-however-the-stream-is-cut",
+                   /\ MaxOf(m.n0, g.sil) < m.n1
+                   /\ (g.ans => MaxOf(m.n0, g.lo) < MinOf(m.n1, g.hi)))
+                 \cup V("C11", "same-reply-however-the-stream-is-cut", g.ans => (g.canon = m.canon /\ (g.ctx = m.ctx => g.exact = m.exact)))
+            ELSE V("C11", "answered-or-not-independent-of-the-cut", g.ans => m.n1 < g.hi)
+
+AfterSegs(b, obs) ==
+    IF ~SegEligible(b, obs) THEN segs
+    ELSE LET m == SegObs(b, obs)
+             id == obs.aux.seg
+             g == IF id \in DOMAIN segs THEN segs[id] ELSE SegNone
+         IN IF ~SegCompatible(g, m) THEN segs
+            ELSE (id :> [ str |-> IF Len(m.s) > Len(g.str) THEN m.s ELSE g.str,
+                          sil |-> IF m.ans THEN g.sil ELSE MaxOf(g.sil, m.n1),
+                          ans |-> g.ans \/ m.ans,
+                          lo  |-> IF m.ans THEN (IF g.ans THEN MaxOf(g.lo, m.n0) ELSE m.n0) ELSE g.lo,
+                          hi  |-> IF m.ans THEN (IF g.ans THEN MinOf(g.hi, m.n1) ELSE m.n1) ELSE g.hi,
+                          canon |-> IF m.ans /\ ~g.ans THEN m.canon ELSE g.canon,
+                          exact |-> IF m.ans /\ ~g.ans THEN m.exact ELSE g.exact,
+                          ctx   |-> IF m.ans /\ ~g.ans THEN m.ctx ELSE g.ctx ]) @@ segs
+
+(***************************************************************************)
+(* State after the step                                                    *)
+(***************************************************************************)
 
 AfterTcb(b, obs) ==
     LET o == ExpectL2(b) IN
@@ -808,7 +874,7 @@ EmptyFn == [ x \in {} |-> 0 ]
 
 Init(c) ==
     /\ cfg = c /\ tcb = EmptyFn /\ ck = EmptyFn /\ ckx = {}
-    /\ viol = {} /\ kf = {} /\ last = "init" /\ groups = EmptyFn /\ pairs = EmptyFn
+    /\ viol = {} /\ kf = {} /\ last = "init" /\ groups = EmptyFn /\ pairs = EmptyFn /\ segs = EmptyFn
     /\ byck = EmptyFn /\ coll = EmptyFn /\ fmt = {}
 
 (* Known findings: a violated clause is attributed to a listed deviation   *)
@@ -842,7 +908,7 @@ OutcomeLabel(b) ==
     ELSE o.name
 
 Handle(b, obs) ==
-    LET j == Judge(b, obs) \cup GroupJudge(b, obs) \cup PairJudge(b, obs)
+    LET j == Judge(b, obs) \cup GroupJudge(b, obs) \cup PairJudge(b, obs) \cup SegJudge(b, obs)
         known == { v \in j : KnownKey(v, b, obs) \in KnownKeys }
     IN
     /\ viol' = j \ known
@@ -853,6 +919,7 @@ Handle(b, obs) ==
     /\ last' = OutcomeLabel(b)
     /\ groups' = AfterGroups(b, obs)
     /\ pairs' = AfterPairs(b, obs)
+    /\ segs' = AfterSegs(b, obs)
     /\ byck' = AfterByck(b, obs)
     /\ coll' = AfterColl(b, obs)
     /\ fmt' = fmt \cup FieldsPrinted(obs.log)
@@ -860,10 +927,10 @@ Handle(b, obs) ==
 
 Reconfigure(c) ==
     /\ cfg' = c /\ tcb' = EmptyFn /\ ck' = EmptyFn /\ ckx' = {}
-    /\ viol' = {} /\ kf' = {} /\ last' = "reconfigure" /\ groups' = EmptyFn /\ pairs' = EmptyFn
+    /\ viol' = {} /\ kf' = {} /\ last' = "reconfigure" /\ groups' = EmptyFn /\ pairs' = EmptyFn /\ segs' = EmptyFn
     /\ byck' = EmptyFn /\ fmt' = {} /\ UNCHANGED coll
 
 ResetTable ==
     /\ tcb' = EmptyFn /\ viol' = {} /\ kf' = {} /\ last' = "reset"
-    /\ UNCHANGED << cfg, ck, ckx, groups, pairs, byck, coll, fmt >>
+    /\ UNCHANGED << cfg, ck, ckx, groups, pairs, byck, coll, fmt, segs >>
 =============================================================================
